@@ -896,6 +896,37 @@ theorem late_created_spares_an_impostor_claiming_the_old_key :
     (get n1.exits 700).map (fun e => e.hop.peer) = some 2 ∧
     r.1.relays = [] ∧ get r.1.exits 700 = get n1.exits 700 ∧ r.2 = [] := by decide
 
+/-! ## introduction points (hidden services): a registration is only ever made for a key nobody holds yet -/
+
+/-- whatever circuit an establish-intro arrives on and whatever info hash it names, the registrations of every seeder
+    key that is already registered stay exactly as they are (same exit socket, same info hash): a second circuit cannot
+    take over, or re-label, the introduction point of another circuit -/
+theorem intro_point_is_first_come (n : Node) (intros : List (Nat × Nat × Nat)) (cid pk infoHash : Nat) :
+    (∀ r ∈ intros, r ∈ onEstablishIntro n intros cid pk infoHash) ∧
+    (∀ r ∈ onEstablishIntro n intros cid pk infoHash, r ∈ intros ∨
+        (r = (pk, cid, infoHash) ∧ (∀ q ∈ intros, q.1 ≠ pk) ∧ (get n.exits cid).isSome = true)) := by
+  unfold onEstablishIntro
+  by_cases h : intros.any (fun r => r.1 == pk) = true
+  · simp only [h, if_true]
+    exact ⟨fun r hr => hr, fun r hr => Or.inl hr⟩
+  · simp only [h, if_false]
+    have hno : ∀ q ∈ intros, q.1 ≠ pk := by
+      intro q hq hqe
+      apply h
+      simp only [List.any_eq_true]
+      exact ⟨q, hq, by simp [hqe]⟩
+    cases he : get n.exits cid with
+    | none => exact ⟨fun r hr => hr, fun r hr => Or.inl hr⟩
+    | some e =>
+      refine ⟨fun r hr => List.mem_append_left _ hr, fun r hr => ?_⟩
+      rcases List.mem_append.mp hr with h1 | h1
+      · exact Or.inl h1
+      · exact Or.inr ⟨List.mem_singleton.mp h1, hno, rfl⟩
+
+example : onEstablishIntro exX [(77, 700, 5)] 700 77 6 = [(77, 700, 5)] := by decide
+example : onEstablishIntro exQ [(77, 700, 5)] 701 77 6 = [(77, 700, 5)] := by decide
+example : onEstablishIntro exQ [(77, 700, 5)] 701 78 6 = [(77, 700, 5), (78, 701, 6)] := by decide
+
 /-! ## any number of third-party events, in any order -/
 
 /-- every single foreign event is a no-op on the whole node state -/
